@@ -20,7 +20,8 @@ def sh(cmd, cwd=None, timeout=3600, e=None):
 
 os.makedirs(DST, exist_ok=True)
 for f in os.listdir(SRC):
-    shutil.copy(os.path.join(SRC, f), os.path.join(DST, f))
+    if not os.path.exists(os.path.join(DST, f)):     # keep what is already there (meta.json carries the confirmation)
+        shutil.copy(os.path.join(SRC, f), os.path.join(DST, f))
 meta = json.load(open(os.path.join(DST, "meta.json")))
 res = {"id": f"{ID}-{M}", "property": ID, "ran": []}
 
